@@ -76,6 +76,11 @@ pub fn case(ctx: &Ctx, idx: u64) -> CaseOut {
     };
     out.count(if production { "neighborhood.production_parameters" } else { "neighborhood.unlimited_segments" }, 1);
     let walk_len = if ctx.thorough() { rng.usize(5, 30) } else { rng.usize(3, 10) };
+    // big instances (busy lines): every candidate costs a full recomputation over dozens of tours,
+    // so the walk is short and a neighbourhood is checked on a seeded sample
+    let big = b.inst.trips.len() > 30;
+    let walk_len = if big { walk_len.min(3) } else { walk_len };
+    let max_checked = if big { 120 } else { 800 };
     let mut current = ScheduleWithInfo::new(s, SwapInfo::NoSwap, String::new());
     let mut walk: Vec<String> = Vec::new();
     for step in 0..walk_len {
@@ -137,7 +142,16 @@ pub fn case(ctx: &Ctx, idx: u64) -> CaseOut {
         }
         out.nontrivial.push(format!("{}|{}", tag, step));
         let mut bad = false;
-        for c in &cands {
+        let stride = (cands.len() + max_checked - 1) / max_checked;
+        let offset = if stride > 1 { rng.usize(0, stride - 1) } else { 0 };
+        if stride > 1 {
+            out.count("neighbourhoods_checked_on_a_sample", 1);
+        }
+        for (ci, c) in cands.iter().enumerate() {
+            if stride > 1 && ci % stride != offset {
+                continue;
+            }
+            out.count("candidates_checked", 1);
             let kind = swap_kind(c.get_last_swap_info());
             out.count(&format!("candidates.{}", kind), 1);
             let o = Obs::of(&b, c.get_schedule());
